@@ -25,6 +25,7 @@ pub mod fxgen;
 pub mod c17;
 pub mod c18;
 pub mod c19;
+pub mod c20;
 
 pub fn make(id: &str) -> Option<Box<dyn Prop>> {
     match id {
@@ -47,6 +48,7 @@ pub fn make(id: &str) -> Option<Box<dyn Prop>> {
         "C17" => Some(Box::new(c17::C17::new())),
         "C18" => Some(Box::new(c18::C18::new())),
         "C19" => Some(Box::new(c19::C19::new())),
+        "C20" => Some(Box::new(c20::C20::new())),
         _ => None,
     }
 }
